@@ -695,7 +695,8 @@ impl Real {
                 let wm = WMsk::read(&m.serialize().unwrap()).expect("harness cannot parse MSK bytes");
                 let wu = WUsk::read(&u.serialize().unwrap()).expect("harness cannot parse USK bytes");
                 if wm.tracers.len() != wu.id.len() {
-                    return "ok 0".into();
+                    // a key of another tracing level than the master key has now: the relation is not about it
+                    return "bad-op".into();
                 }
                 let mut l = format!("trace {} {}", crate::util::CFG, hex(&wm.s));
                 for (t, _) in &wm.tracers {
